@@ -14,7 +14,7 @@
 (*   fs     rule = <<component..>>, component <<type, prefix>> (1, 2) or   *)
 (*          <<type, <<[op, len, v]..>>>> with op in "=", "<", ">", "<=", ">=" *)
 (***************************************************************************)
-EXTENDS WireUpdate
+EXTENDS WireEncaps
 
 (***************************** encoders *************************************)
 EncLabel(l, bos) == U24(l * 16 + (IF bos THEN 1 ELSE 0))
@@ -131,6 +131,22 @@ WfFsList(b) ==
    ELSE IF b[1] >= 240
         THEN /\ Len(b) >= 2 /\ LET n == (b[1] - 240) * 256 + b[2] IN Len(b) >= 2 + n /\ n >= 240 /\ WfComps(SubSeq(b, 3, 2 + n), 0) /\ WfFsList(Drop(b, 2 + n))
         ELSE /\ Len(b) >= 1 + b[1] /\ WfComps(SubSeq(b, 2, 1 + b[1]), 0) /\ WfFsList(Drop(b, 1 + b[1]))
+\* IPv6 flow specification (RFC 8956 3.1): a prefix component is <length, offset, pattern> and the pattern occupies
+\* ceil((length - offset) / 8) octets; the other components are as in IPv4 (plus type 13, flow label)
+RECURSIVE WfComps6(_, _)
+WfComps6(b, last) ==
+   IF b = <<>> THEN TRUE
+   ELSE /\ b[1] > last /\ Len(b) >= 2
+        /\ IF b[1] \in {1, 2}
+           THEN /\ Len(b) >= 3 /\ b[2] <= 128 /\ b[3] <= b[2] /\ Len(b) >= 3 + POctets(b[2] - b[3])
+                /\ WfComps6(Drop(b, 3 + POctets(b[2] - b[3])), b[1])
+           ELSE WfOps(Tail(b)) /\ WfComps6(Drop(b, 1 + OpsLen(Tail(b))), b[1])
+RECURSIVE WfFs6List(_)
+WfFs6List(b) ==
+   IF b = <<>> THEN TRUE
+   ELSE IF b[1] >= 240
+        THEN /\ Len(b) >= 2 /\ LET n == (b[1] - 240) * 256 + b[2] IN Len(b) >= 2 + n /\ n >= 240 /\ WfComps6(SubSeq(b, 3, 2 + n), 0) /\ WfFs6List(Drop(b, 2 + n))
+        ELSE /\ Len(b) >= 1 + b[1] /\ WfComps6(SubSeq(b, 2, 1 + b[1]), 0) /\ WfFs6List(Drop(b, 1 + b[1]))
 WfNlri(afi, safi, b) ==
    CASE afi = 2 /\ safi = 1 -> WfPrefixList(b, 128)
      [] afi = 1 /\ safi = 1 -> WfPrefixList(b, 32)
@@ -140,15 +156,19 @@ WfNlri(afi, safi, b) ==
      [] afi = 2 /\ safi = 128 -> WfVpnList(b, 128)
      [] afi = 25 /\ safi = 70 -> WfEvpnList(b)
      [] afi = 1 /\ safi = 133 -> WfFsList(b)
+     [] afi = 2 /\ safi = 133 -> WfFs6List(b)
+     [] afi \in {1, 2} /\ safi = 73 -> WfSrteList(b)
      [] OTHER -> TRUE
 NhLenOk(afi, safi, n) ==
    CASE afi = 2 /\ safi = 1 -> n \in {16, 32} [] afi = 1 /\ safi = 4 -> n \in {4} [] afi = 2 /\ safi = 4 -> n \in {16, 32}
      [] afi = 1 /\ safi = 128 -> n = 12 [] afi = 2 /\ safi = 128 -> n \in {24, 48} [] afi = 25 /\ safi = 70 -> n \in {4, 16}
-     [] afi = 1 /\ safi = 133 -> n \in {0, 4} [] OTHER -> TRUE
+     [] afi = 1 /\ safi = 133 -> n \in {0, 4} [] afi = 2 /\ safi = 133 -> n \in {0, 16} [] safi = 73 -> n \in {4, 16} [] OTHER -> TRUE
 WfMpAttrVal(t, v, asn4) ==
    CASE t = 14 -> /\ Len(v) >= 5 /\ Len(v) >= 5 + v[4] /\ NhLenOk(N16(v, 1), v[3], v[4])
                   /\ WfNlri(N16(v, 1), v[3], Drop(v, 5 + v[4]))
      [] t = 15 -> Len(v) >= 3 /\ WfNlri(N16(v, 1), v[3], Drop(v, 3))
+     [] t = 22 -> WfPmsi(v)
+     [] t = 23 -> WfTunnelEncaps(v)
      [] OTHER -> WfAttrVal(t, v, asn4)
 WfUpdateMp(m, asn4) == WfUpdateWith(m, asn4, WfMpAttrVal)
 
@@ -233,6 +253,41 @@ FsRules(lazy) ==
    \* rules of 240 octets and more (two-octet length 0xfnnn): 79, 80 and 100 two-octet operators
    \cup {<<<<5, [i \in 1..n |-> FsOp("=", 2, <<1, i>>)]>>>> : n \in {79, 80, 100}}
    \cup {<<<<1, P4s[4]>>, <<3, <<FsOp("=", 1, <<6>>)>>>>, <<5, <<FsOp("=", 2, <<31, 144>>), FsOp("=", 1, <<80>>)>>>>, <<11, <<FsOp("=", 1, <<46>>)>>>>>>}
+\* IPv6 flow specification rules: prefix components <<t, <<length, offset, address (16 octets)>>>>, the rest as for IPv4
+Pattern6(l, off, a) ==      \* the (l - off) bits after the offset, left-aligned (offsets inside an octet only occur with a zero address here)
+   IF off % 8 = 0 THEN SubSeq([i \in 1..16 |-> MaskOct(a[i], l - 8 * (i - 1))], off \div 8 + 1, POctets(l)) ELSE Zeros(POctets(l - off))
+EncComp6(c) == IF c[1] \in {1, 2} THEN <<c[1], c[2][1], c[2][2]>> \o Pattern6(c[2][1], c[2][2], c[2][3]) ELSE <<c[1]>> \o EncOps(c[2])
+EncRule6(rule) ==
+   LET b == Flatten([i \in 1..Len(rule) |-> EncComp6(rule[i])]) IN
+   (IF Len(b) < 240 THEN <<Len(b)>> ELSE U16(61440 + Len(b))) \o b
+Pfx6s == {<<0, 0, A6a>>, <<1, 0, A6a>>, <<64, 0, A6a>>, <<128, 0, A6a>>, <<64, 32, A6a>>, <<128, 120, A6a>>, <<48, 40, A6a>>, <<60, 8, A6a>>,
+          <<65, 7, Zeros(16)>>, <<10, 3, Zeros(16)>>, <<128, 1, Zeros(16)>>}
+Fs6Rules(lazy) ==
+   {<<<<t, p>>>> : t \in {1, 2}, p \in Pfx6s} \cup {<<<<1, <<64, 0, A6a>>>>, <<2, <<48, 40, A6a>>>>>>}
+   \cup {<<<<t, <<o>>>>>> : t \in 3..13, o \in OpVals}
+   \cup {<<<<t, <<o1, o2>>>>>> : t \in {3, 13}, o1, o2 \in {FsOp("=", 1, <<6>>), FsOp(">=", 2, <<1, 0>>), FsOp("<", 1, <<255>>)}}
+   \cup {<<<<5, [i \in 1..n |-> FsOp("=", 2, <<1, i>>)]>>>> : n \in {79, 80, 100}}
+   \cup {<<<<1, <<64, 0, A6a>>>>, <<3, <<FsOp("=", 1, <<6>>)>>>>, <<5, <<FsOp("=", 2, <<31, 144>>), FsOp("=", 1, <<80>>)>>>>, <<13, <<FsOp("=", 4, <<0, 1, 2, 3>>)>>>>>>}
+\* vectors of the construct-only families (C08): [kind "enc", sub, u]
+EncVecs(lazy) ==
+   {[kind |-> "enc", sub |-> "srpol", u |-> p] : p \in PolicyPool}
+   \cup {[kind |-> "enc", sub |-> "pmsi", u |-> p] : p \in PmsiPool}
+   \cup {[kind |-> "enc", sub |-> "srte", u |-> n] : n \in SrtePool}
+   \cup {[kind |-> "enc", sub |-> "fs6", u |-> [nh |-> nh, rules |-> <<r>>]] : nh \in {<<>>}, r \in Fs6Rules(0)}
+   \cup {[kind |-> "enc", sub |-> "fs6", u |-> [nh |-> Nh6, rules |-> <<r1, r2>>]] : r1, r2 \in {<<<<1, <<64, 0, A6a>>>>>>, <<<<3, <<FsOp("=", 1, <<6>>)>>>>>>}}
+\* values for which the RFCs define an encoding (the others are in the pool to see that construction fails or stays valid)
+ValidEnc(v) ==
+   CASE v.sub = "pmsi" -> (v.u.ttype = 0 => v.u.id = <<>>) /\ (v.u.ttype = 6 => v.u.id # <<>>) /\ (v.u.ttype \notin {0, 6} => v.u.id = <<>>)
+     [] v.sub = "srte" -> Len(v.u.nh) \in {4, 16}
+     [] OTHER -> TRUE
+EncBytes(v) ==
+   LET withAttr(t, val, ext) == LET a == EncAttrs(Base(TRUE), TRUE, FALSE) \o AttrTLV(t, val, ext)
+                                IN Message(2, U16(0) \o U16(Len(a)) \o a \o EncPrefix(P6[6]))
+       mp(val) == LET a == EncAttrs(MpBase, TRUE, FALSE) \o AttrTLV(14, val, TRUE) IN Message(2, U16(0) \o U16(Len(a)) \o a)
+   IN CASE v.sub = "srpol" -> withAttr(23, EncTunnelEncaps(v.u), TRUE)
+        [] v.sub = "pmsi" -> withAttr(22, EncPmsi(v.u), FALSE)
+        [] v.sub = "srte" -> mp(U16(v.u.afi) \o <<73, Len(v.u.nh)>> \o v.u.nh \o <<0>> \o EncSrteNlri(v.u))
+        [] v.sub = "fs6" -> mp(U16(2) \o <<133, Len(v.u.nh)>> \o v.u.nh \o <<0>> \o Flatten([i \in 1..Len(v.u.rules) |-> EncRule6(v.u.rules[i])]))
 FsPool ==
    {Mp("fs", TRUE, nh, <<r>>) : nh \in {<<>>}, r \in FsRules(0)}
    \cup {Mp("fs", FALSE, <<>>, <<r>>) : r \in FsRules(0)}
